@@ -48,6 +48,9 @@ Definition chunkify (n : nat) (xs : list Z) : list chunk :=
 (* ---- control script *)
 Inductive cmd :=
 | CPlay (csize : nat) (samples : list Z)   (* manager.play(samples, chunk_size*channels = csize) *)
+| CPlaySrc (csize : nat) (samples : list Z)
+    (* the same as CPlay, but the audio is an instrumented iterator: every next() on it (also the one
+       that raises StopIteration) is a yield point, so the player can be pre-empted in mid-chunk *)
 | CPlayBad (csize : nat) (samples : list Z) (k : nat)
     (* the same, but the chunk generator raises when asked for chunk number k (an iterable that
        raises, or struct.pack rejecting the float padval of an integer format): k chunks are produced *)
@@ -86,7 +89,9 @@ Record player := mkP {
   phalting : bool;          (* thread.halting *)
   popen : bool;             (* the device stream is open (member of PyAudio._streams) *)
   pafter : nat;             (* ghost: chunks written while thread.halting was already true *)
-  pcrash : bool             (* the chunk generator raises once prem is exhausted *)
+  pcrash : bool;            (* the chunk generator raises once prem is exhausted *)
+  pfill : nat;              (* next() calls on an instrumented source before the pending operation *)
+  ppulls : list nat         (* the same counts for the chunks (and the final StopIteration) to come *)
 }.
 
 Inductive ctl := KPause | KResume | KStop
@@ -94,7 +99,7 @@ Inductive ctl := KPause | KResume | KStop
 
 (* ---- main thread program counter *)
 Inductive mpc :=
-| MPlayAcq (a : list chunk) (cr : bool)  (* play: with self.lock: *)
+| MPlayAcq (a : list chunk) (cr : bool) (pl : list nat)  (* play: with self.lock: *)
 | MPlayRaiseRel              (*   finished: raise ThreadError -> release self.lock *)
 | MPlayGoSet (p : nat)       (*   AudioThread.__init__: self.go.set() *)
 | MPlayHaltInit (p : nat)    (*     self.halting = False *)
@@ -156,13 +161,16 @@ Definition set_mpc s v := mkS (swait s) (sfinished s) (shlock s) (smlock s) (sth
 Definition set_script s v := mkS (swait s) (sfinished s) (shlock s) (smlock s) (sthreads s) (sstarted s) (sterminated s) (splayers s) (smpc s) v (strace s).
 Definition emit s e := mkS (swait s) (sfinished s) (shlock s) (smlock s) (sthreads s) (sstarted s) (sterminated s) (splayers s) (smpc s) (sscript s) (e :: strace s).
 
-Definition p_set_pc p v := mkP v (paudio p) (prem p) (pwritten p) (ptlock p) (pgo p) (phalting p) (popen p) (pafter p) (pcrash p).
-Definition p_set_tlock p v := mkP (ppc_ p) (paudio p) (prem p) (pwritten p) v (pgo p) (phalting p) (popen p) (pafter p) (pcrash p).
-Definition p_set_go p v := mkP (ppc_ p) (paudio p) (prem p) (pwritten p) (ptlock p) v (phalting p) (popen p) (pafter p) (pcrash p).
-Definition p_set_halting p v := mkP (ppc_ p) (paudio p) (prem p) (pwritten p) (ptlock p) (pgo p) v (popen p) (pafter p) (pcrash p).
-Definition p_set_open p v := mkP (ppc_ p) (paudio p) (prem p) (pwritten p) (ptlock p) (pgo p) (phalting p) v (pafter p) (pcrash p).
+Definition p_set_pc p v := mkP v (paudio p) (prem p) (pwritten p) (ptlock p) (pgo p) (phalting p) (popen p) (pafter p) (pcrash p) (pfill p) (ppulls p).
+Definition p_set_tlock p v := mkP (ppc_ p) (paudio p) (prem p) (pwritten p) v (pgo p) (phalting p) (popen p) (pafter p) (pcrash p) (pfill p) (ppulls p).
+Definition p_set_go p v := mkP (ppc_ p) (paudio p) (prem p) (pwritten p) (ptlock p) v (phalting p) (popen p) (pafter p) (pcrash p) (pfill p) (ppulls p).
+Definition p_set_halting p v := mkP (ppc_ p) (paudio p) (prem p) (pwritten p) (ptlock p) (pgo p) v (popen p) (pafter p) (pcrash p) (pfill p) (ppulls p).
+Definition p_set_open p v := mkP (ppc_ p) (paudio p) (prem p) (pwritten p) (ptlock p) (pgo p) (phalting p) v (pafter p) (pcrash p) (pfill p) (ppulls p).
 Definition p_write p c r := mkP (ppc_ p) (paudio p) r (pwritten p ++ [c]) (ptlock p) (pgo p) (phalting p) (popen p)
-  (if phalting p then S (pafter p) else pafter p) (pcrash p).
+  (if phalting p then S (pafter p) else pafter p) (pcrash p) (pfill p) (ppulls p).
+
+Definition p_set_fill p v := mkP (ppc_ p) (paudio p) (prem p) (pwritten p) (ptlock p) (pgo p) (phalting p) (popen p)
+  (pafter p) (pcrash p) v (ppulls p).
 
 Fixpoint upd {A} (i : nat) (f : A -> A) (l : list A) : list A :=
   match l, i with
@@ -182,7 +190,8 @@ Fixpoint mem (x : nat) (l : list nat) : bool :=
   match l with [] => false | y :: r => Nat.eqb x y || mem x r end.
 
 (* a freshly constructed AudioThread: Lock() free, Event() clear, nothing written, no stream yet *)
-Definition new_player (a : list chunk) (cr : bool) : player := mkP PNew a a [] None false false false 0 cr.
+Definition new_player (a : list chunk) (cr : bool) (pl : list nat) : player :=
+  mkP PNew a a [] None false false false 0 cr 0 pl.
 
 Definition p_alive (p : player) : bool :=
   match ppc_ p with PNew | PDone => false | _ => true end.
@@ -197,13 +206,28 @@ Definition loop_pc (p : player) : ppc :=
   | _ => PWrite
   end.
 
+(* entering the chunk loop (again): the pc, and the source accesses that come before its operation *)
+Definition p_loop (p : player) : player :=
+  mkP (loop_pc p) (paudio p) (prem p) (pwritten p) (ptlock p) (pgo p) (phalting p) (popen p)
+      (pafter p) (pcrash p) (hd 0 (ppulls p)) (tl (ppulls p)).
+
+(* next() calls per chunk of an instrumented source of len samples: n for a full chunk, r + 1 for the
+   ragged last one (the StopIteration is seen while filling it), and one more call (StopIteration)
+   after the last chunk when the length is a multiple of n *)
+Definition pull_counts (n len : nat) : list nat :=
+  match n with
+  | O => []
+  | _ => repeat n (len / n) ++ [match len mod n with O => 1 | r => S r end]
+  end.
+
 (* ---- the main thread picks its next command; commands on players that do not exist are skipped
    by the harness driver and here alike *)
 Fixpoint fetch (np : nat) (sc : list cmd) : mpc * list cmd :=
   match sc with
   | [] => (MDone, [])
-  | CPlay n xs :: r => (MPlayAcq (chunkify n xs) false, r)
-  | CPlayBad n xs k :: r => (MPlayAcq (firstn k (chunkify n xs)) true, r)
+  | CPlay n xs :: r => (MPlayAcq (chunkify n xs) false [], r)
+  | CPlaySrc n xs :: r => (MPlayAcq (chunkify n xs) false (pull_counts n (length xs)), r)
+  | CPlayBad n xs k :: r => (MPlayAcq (firstn k (chunkify n xs)) true [], r)
   | CPause t :: r => if t <? np then (MCtlAcq KPause t, r) else fetch np r
   | CResume t :: r => if t <? np then (MCtlAcq KResume t, r) else fetch np r
   | CStop t :: r => if t <? np then (MCtlAcq KStop t, r) else fetch np r
@@ -230,14 +254,14 @@ Definition acquire_t (s : state) (t : nat) (k : state -> state) : option state :
 
 Definition step_main (s : state) : option state :=
   match smpc s with
-  | MPlayAcq a cr =>
+  | MPlayAcq a cr pl =>
       match smlock s with
       | Some _ => None
       | None =>
           let s1 := set_mlock s (Some 0) in
           if sfinished s1 then Some (set_mpc s1 MPlayRaiseRel)
           else let p := length (splayers s1) in
-               Some (set_mpc (set_players s1 (splayers s1 ++ [new_player a cr])) (MPlayGoSet p))
+               Some (set_mpc (set_players s1 (splayers s1 ++ [new_player a cr pl])) (MPlayGoSet p))
       end
   | MPlayRaiseRel => Some (next_cmd (emit (set_mlock s None) EPlayRaise))
   | MPlayGoSet p => Some (set_mpc (upd_player s p (fun q => p_set_go q true)) (MPlayHaltInit p))
@@ -263,7 +287,7 @@ Definition step_main (s : state) : option state :=
                     end)
           end
       end
-  | MPlayStart p => Some (set_mpc (upd_player s p (fun q => p_set_pc q (loop_pc q))) MPlayRel)
+  | MPlayStart p => Some (set_mpc (upd_player s p p_loop) MPlayRel)
   | MPlayRel => Some (next_cmd (set_mlock s None))
   | MCtlAcq k t =>
       acquire_t s t (fun s1 => set_mpc s1 match k with
@@ -335,6 +359,9 @@ Definition step_player (s : state) (i : nat) : option state :=
   | Some p =>
       let me := S i in
       let go pc := Some (upd_player s i (fun q => p_set_pc q pc)) in
+      match pfill p with
+      | S k => Some (upd_player s i (fun q => p_set_fill q k))    (* next() on the audio source *)
+      | O =>
       match ppc_ p with
       | PNew | PDone => None
       | PWrite =>
@@ -343,12 +370,12 @@ Definition step_player (s : state) (i : nat) : option state :=
           | c :: r => Some (emit (upd_player s i (fun q => p_set_pc (p_write q c r) PTestHalt1)) (EWrite i c))
           end
       | PTestHalt1 => go (if phalting p then PStopStream else PTestGo)
-      | PTestGo => go (if pgo p then loop_pc p else PStopStream)
+      | PTestGo => if pgo p then Some (upd_player s i p_loop) else go PStopStream
       | PStopStream => Some (emit (upd_player s i (fun q => p_set_pc q PTestHalt2)) (EStopS i))
       | PTestHalt2 => go (if phalting p then PEpiAcq else PWait)
       | PWait => if pgo p then go PTestHalt3 else None
       | PTestHalt3 => go (if phalting p then PEpiAcq else PStartStream)
-      | PStartStream => Some (emit (upd_player s i (fun q => p_set_pc q (loop_pc q))) (EStartS i))
+      | PStartStream => Some (emit (upd_player s i p_loop) (EStartS i))
       | PEpiAcq =>
           match ptlock p with
           | Some _ => None
@@ -366,6 +393,7 @@ Definition step_player (s : state) (i : nat) : option state :=
           Some (upd_player (set_threads s (remove_first i (sthreads s))) i (fun q => p_set_pc q PFinRel))
       | PFinRel => Some (upd_player (set_mlock s None) i (fun q => p_set_pc q PEpiRelT))
       | PEpiRelT => Some (upd_player s i (fun q => p_set_pc (p_set_tlock q None) PDone))
+      end
       end
   end.
 
